@@ -550,10 +550,38 @@ func useTemplates() []Tmpl {
 			b.stmt("var " + x + " " + on),
 			b.stmt(x+"."+env.Reset.Name+"()", &Use{Kind: UMethodRef, Fn: env.Reset, Call: true, Feature: "promoted-method"}),
 			b.stmt(x+"."+env.Val.Name+"()", &Use{Kind: UMethodRef, Fn: env.Val, Call: true, Feature: "promoted-method"}),
-			b.stmt(y+" := "+opn+"{"+t.Name+": "+c+"}", u),
+			b.stmt(y+" := "+opn+"{"+c+"}", u),
 			b.stmt(y+"."+env.Reset.Name+"()", &Use{Kind: UMethodRef, Fn: env.Reset, Call: true, Feature: "promoted-method"}),
 			b.stmt(z+" := "+y+"."+env.Val.Name, &Use{Kind: UMethodRef, Fn: env.Val, Feature: "promoted-method"}),
 			b.stmt(z + "()"),
+		}
+		fn.Post = []*Line{b.line("}")}
+		return []*Node{d1, d2, fn}
+	}})
+	// fields reached through struct embedding (promoted): "x.F = 1" stands for "x.T.F = 1"
+	ts = append(ts, Tmpl{Name: "promoted-field-through-embedding", Cat: IMM, Kind: "struct", Decl: true, Make: func(b *B, t *Type, env *Env) []*Node {
+		on, opn := b.d("holder"), b.d("holderp")
+		d1 := &Node{Pre: []*Line{b.line("type " + on + " struct {")}, Kids: []*Node{b.tstmt("%T", refT(t, SubField))}, Post: []*Line{b.line("}")}}
+		d2 := &Node{Pre: []*Line{b.line("type " + opn + " struct {")}, Kids: []*Node{b.tstmt("*%T", refT(t, SubField))}, Post: []*Line{b.line("}")}}
+		fn := &Node{Fn: &Func{Name: b.d("viaHolder")}}
+		fn.Pre = []*Line{b.line("func " + fn.Fn.Name + "() {")}
+		c, u := callNew(t, env)
+		x, y := b.v(), b.v()
+		pf := func(k UseKind, f string) *Use {
+			w := useT(k, t, f)
+			w.Feature = "promoted-field"
+			return w
+		}
+		fn.Kids = []*Node{
+			b.stmt("var " + x + " " + on),
+			b.stmt(x+".F = 1", pf(UFieldAssign, "F")),
+			b.stmt(x+".F++", pf(UFieldIncDec, "F")),
+			b.stmt(x+".G = 2", pf(UFieldAssign, "G")),
+			b.stmt(y+" := "+opn+"{"+c+"}", u),
+			b.stmt(y+".F -= 3", pf(UFieldOpAssign, "F")),
+			b.stmt(y+".S[0] = 4", pf(UFieldIndexAssign, "S")),
+			b.stmt(y+".MS[0] = 5", pf(UFieldIndexAssign, "MS")),
+			b.stmt("_ = " + x + ".F"),
 		}
 		fn.Post = []*Line{b.line("}")}
 		return []*Node{d1, d2, fn}
